@@ -33,4 +33,36 @@ def collect(h):
     h.find(rel, r"AddRefField\(string\(f\.RefField\.Name\.Value\),\s*(f\.RefField\.NotNull,\s*)?f\.RefField\.refQNames\.\.\.\)", "views(): AddRefField with refQNames")
     recorded = bool(re.search(r"rf\.refQNames\s*=\s*append\(rf\.refQNames,", body))
     items.append(("parser_view_refs_recorded", "bool", "true" if recorded else "false", rel2 + " analyseViewRefFields"))
+    # F28: does grantsAndRevokes apply the statements of a workspace once, or again for every heir?
+    body = h.func_body(rel, r"^func \(c \*buildContext\) grantsAndRevokes\(", "grantsAndRevokes")
+    h.find(rel, r"handleWorkspace\(w\.Statements\)", "grantsAndRevokes: handleWorkspace(w.Statements)")
+    again = bool(re.search(r"range\s+w\.inheritedWorkspaces\s*\{\s*handleWorkspace\(", body))
+    items.append(("parser_inherited_grants_once", "bool", "false" if again else "true", rel + " grantsAndRevokes"))
+    # F26: are the statements of the current workspace matched against the package of that workspace
+    # (lookingUpInSchema = ws.pkg before ws.workspace.Iterate), or against the package of the name looked up?
+    rel3 = "pkg/parser/utils.go"
+    body = h.func_body(rel3, r"^func lookupInCtx\[", "lookupInCtx")
+    h.find(rel3, r"named\.GetName\(\) == string\(fn\.Name\) && lookingUpInSchema == stmtSchema", "lookupInCtx: name and schema test")
+    m = re.search(r"if ws\.workspace != nil \{(.*?)ws\.workspace\.Iterate\(lookupCallback\)", body, re.S)
+    if not m:
+        raise h.Missing(f"{rel3}: lookupInCtx: cannot locate the search of the current workspace")
+    items.append(("parser_lookup_respects_package", "bool", "true" if re.search(r"lookingUpInSchema\s*=\s*ws\.pkg", m.group(1)) else "false", rel3 + " lookupInCtx"))
+    # F27: are INHERITS lists resolved in the context of the package that wrote them? four sites:
+    # lookupInCtx (inherited workspaces), analyzeWorkspace.checkChain, includeFromInheritedWorkspaces,
+    # getTableInheritanceChain
+    sites = [
+        bool(re.search(r"lookInInherted\(f,\s*c\.inPackage\(wSchema\)\)", body)) and bool(re.search(r"resolveInCtx\(dq,\s*c,", body)),
+        bool(re.search(r"checkChain\(w,\s*c\.inPackage\(wpkg\)\)", h.func_body(rel2, r"^func analyzeWorkspace\(", "analyzeWorkspace"))),
+        bool(re.search(r"addFromInheritedWs\(baseWs,\s*ictx\.inPackage\(basePkg\)\)", h.func_body(rel2, r"^func includeFromInheritedWorkspaces\(", "includeFromInheritedWorkspaces"))),
+        bool(re.search(r"vf\(t,\s*c\.contextOf\(t,\s*pkg\)\)", h.func_body(rel2, r"^func getTableInheritanceChain\(", "getTableInheritanceChain"))),
+    ]
+    if any(sites) and not all(sites):
+        raise h.Missing(f"{rel2}/{rel3}: INHERITS lists are resolved in their own package at some sites only: {sites}")
+    items.append(("parser_inherits_in_own_package", "bool", "true" if all(sites) else "false",
+                  rel3 + " lookupInCtx; " + rel2 + " analyzeWorkspace, includeFromInheritedWorkspaces, getTableInheritanceChain"))
+    # F29: does the last analysis pass resolve the reference fields of a workspace descriptor?
+    body = h.func_body(rel2, r"^func analyse\(", "analyse")
+    h.find(rel2, r"case \*ViewStmt:\s*\n\s*analyseViewRefFields\(v\.Items, ictx\)", "analyse: pass 6")
+    items.append(("parser_descriptor_refs_analysed", "bool",
+                  "true" if re.search(r"case \*WsDescriptorStmt:\s*\n(\s*//[^\n]*\n)*\s*analyseRefFields\(v\.Items, ictx, appdef\.TypeKind_CDoc\)", body) else "false", rel2 + " analyse (pass 6)"))
     return items
